@@ -8,6 +8,7 @@ pub mod c07;
 pub mod c08;
 pub mod c09;
 pub mod c10;
+pub mod c11;
 pub mod c12;
 pub mod c13;
 pub mod c14;
@@ -38,6 +39,13 @@ pub fn dispatch(id: &str, tier: Tier, replay_file: Option<&Path>) -> i32 {
         "C05" => go!(c05),
         "C06" => go!(c06),
         "C08" => go!(c08),
+        "C11" => {
+            let spec = c11::spec_for(tier);
+            match replay_file {
+                Some(f) => replay(&spec, f),
+                None => drive(spec, tier),
+            }
+        }
         "C07" => {
             let spec = c07::spec_for(tier);
             match replay_file {
